@@ -31,6 +31,7 @@ const (
 	KBS  // sum / max / min of Body over Var = Lo..Hi
 	KLet // shared sub-value
 	KRV  // reference to a shared sub-value
+	KIf  // Args[0] if IxA < IxB else Args[1] (which operand of a Concat / Patch a position reads)
 )
 
 // Ix is an integer index expression of a template.
@@ -105,17 +106,18 @@ type Bind struct {
 }
 
 type T struct {
-	K      Kind
-	N, D   int64   // KQ
-	V      float64 // KQ: n/d
-	Name   string  // KS: tensor name, KC: constant name, KA: function
-	I      int     // KS: 1-based element
-	Args   []*T
-	Ix     *Ix    // KSX
-	Var    string // KBS, KLet, KRV
-	Lo, Hi int    // KBS
-	Body   *T     // KBS, KLet
-	Val    *T     // KLet
+	K        Kind
+	N, D     int64   // KQ
+	V        float64 // KQ: n/d
+	Name     string  // KS: tensor name, KC: constant name, KA: function
+	I        int     // KS: 1-based element
+	Args     []*T
+	Ix       *Ix    // KSX
+	IxA, IxB *Ix    // KIf
+	Var      string // KBS, KLet, KRV
+	Lo, Hi   int    // KBS
+	Body     *T     // KBS, KLet
+	Val      *T     // KLet
 }
 
 const (
@@ -192,6 +194,23 @@ func (t *T) UnmarshalJSON(b []byte) error {
 	case "rv":
 		t.K = KRV
 		return json.Unmarshal(raw[1], &t.Var)
+	case "if":
+		t.K = KIf
+		if len(raw) != 5 {
+			return fmt.Errorf("term if arity")
+		}
+		t.IxA, t.IxB = new(Ix), new(Ix)
+		if err := json.Unmarshal(raw[1], t.IxA); err != nil {
+			return err
+		}
+		if err := json.Unmarshal(raw[2], t.IxB); err != nil {
+			return err
+		}
+		t.Args = []*T{new(T), new(T)}
+		if err := json.Unmarshal(raw[3], t.Args[0]); err != nil {
+			return err
+		}
+		return json.Unmarshal(raw[4], t.Args[1])
 	default:
 		t.K = KA
 		t.Name = head
@@ -222,6 +241,8 @@ func (t *T) MarshalJSON() ([]byte, error) {
 		return json.Marshal([]any{"let", t.Var, t.Val, t.Body})
 	case KRV:
 		return json.Marshal([]any{"rv", t.Var})
+	case KIf:
+		return json.Marshal([]any{"if", t.IxA, t.IxB, t.Args[0], t.Args[1]})
 	}
 	out := make([]any, 0, len(t.Args)+1)
 	out = append(out, t.Name)
@@ -258,6 +279,11 @@ func (t *T) EvalAt(env Env, mode int, b *Bind) Res {
 		return Res{V: env[t.Name][t.Ix.eval(b)]}
 	case KRV:
 		return b.R[t.Var]
+	case KIf:
+		if t.IxA.eval(b) < t.IxB.eval(b) {
+			return t.Args[0].EvalAt(env, mode, b)
+		}
+		return t.Args[1].EvalAt(env, mode, b)
 	case KLet:
 		v := t.Val.EvalAt(env, mode, b)
 		nb := &Bind{I: b.I, R: map[string]Res{}}
